@@ -102,7 +102,7 @@ func genSeq(r *fw.Rand, tier string) ([]uint64, string) {
 	case 2:
 		start = uint64(1<<63) - uint64(r.Intn(3)) // around MaxInt64
 	}
-	kind := r.Intn(12)
+	kind := r.Intn(14)
 	tag := ""
 	cur := start
 	for i := range xs {
@@ -157,6 +157,14 @@ func genSeq(r *fw.Rand, tier string) ([]uint64, string) {
 			d = 1
 			if i > n-3 {
 				d = uint64(r.Intn(4))
+			}
+		case 12, 13:
+			// one gap (the first, or a later one) is ragged while all others share a power of
+			// ten: the divisor of the packed scheme has to give way to that one gap
+			tag = "one-ragged-gap"
+			d = uint64(1+r.Intn(5000)) * pow10(3+int(start%7))
+			if (kind == 12 && i == 1) || (kind == 13 && n > 3 && i == 1+int(start%uint64(n-1))) {
+				d += uint64(1 + r.Intn(9))
 			}
 		default:
 			tag = "blocks-of-bits"
